@@ -1160,7 +1160,10 @@ func (x *g) intLit() string {
 			return []string{"int(2.5 * 2)", "int(1e3)", "len(b\"ab\\xff\\x00\")", "int(0.1 + 0.2 + 4503599627370497.0)", "len(str(1e300))"}[x.intn(5, "fc")]
 		}
 		return []string{"0x7fffffff", "2147483648", "-2147483649", "0xffffffffffffffff", "123456789012345678901234567890",
-			"0o777", "0b1011"}[x.intn(7, "bigv")]
+			"0o777", "0b1011",
+			// one number in several spellings, and (strLit) the texts whose bytes are its digits or its big-endian bytes:
+			// distinct constants of one program that a pool keyed on the wrong thing would merge
+			"1203813099885386221641", "0x414243444546474849"}[x.intn(9, "bigv")]
 	}
 	if v := x.intn(10, "int") - 2; v < 0 {
 		return fmt.Sprintf("(%d)", v)
@@ -1173,7 +1176,7 @@ func (x *g) strLit() string {
 	if x.cfg.BigConsts && x.chance(0.1, "strange") {
 		x.f("consts")
 		return []string{`"\x00\x01"`, `"éé\U0001F600"`, `'it"s'`, `"""tri
-ple"""`, `r"raw\n"`, `""`}[x.intn(6, "strv")]
+ple"""`, `r"raw\n"`, `""`, `"ABCDEFGHI"`, `"1203813099885386221641"`}[x.intn(8, "strv")]
 	}
 	return []string{`"a"`, `"b"`, `"p"`, `"q"`, `"ab"`, `""`, `"z z"`}[x.intn(7, "str")]
 }
